@@ -61,7 +61,7 @@ class Prop:
     def needs_confirmation(self, case, imp):
         """cases whose oracle rests on a timing assumption about this machine (logical time grids, paced peers,
         wall-clock bounds): a failure must reproduce when the same case is executed again"""
-        if case.startswith("vq seq") or case.startswith("vq conc") or case.startswith("node early"):
+        if case.startswith("vq seq") or case.startswith("vq conc") or case.startswith("node early") or case.startswith("vq backlog"):
             return True
         if case.startswith("node stop"):
             return "after=0" in imp      # only the wall-clock bound failed
